@@ -84,7 +84,7 @@ class Real:
     def apply(self, op, cpos_all):
         c, n = self.c, op["name"]
         if n == "Call":
-            kw = {}
+            kw = {"store": bool(op.get("st", True)), "krige_store": bool(op.get("kst", True))}
             if op["s"] != KEEP:
                 kw["seed"] = SEEDS[op["s"]]
             if op["p"] != KEEP:
@@ -158,8 +158,11 @@ def replay(col, gs, variant, dim, beh, origin, nugget=0.0, big=False):
         fresh = Real(gs, variant, dim, cfg, seed, nugget)
         pos = target(ptok, dim, cpos_all)
         ff = np.array(fresh.c(pos))
-        pairs = [("raw_krige", np.array(r.c["raw_krige"]), np.array(fresh.c["raw_krige"])),
-                 ("krige_var", np.array(r.c.krige["krige_var"]), np.array(fresh.c.krige["krige_var"]))]
+        pairs = []
+        if op.get("st", True):      # stored fields are only compared when this call was asked to store them
+            pairs.append(("raw_krige", np.array(r.c["raw_krige"]), np.array(fresh.c["raw_krige"])))
+        if op.get("kst", True):
+            pairs.append(("krige_var", np.array(r.c.krige["krige_var"]), np.array(fresh.c.krige["krige_var"])))
         if nugget == 0:
             # with a nugget the noise drawn depends on how often the stream was used before (C11: nugget-free clause)
             pairs.insert(0, ("field", f, ff))
@@ -210,8 +213,8 @@ def replay(col, gs, variant, dim, beh, origin, nugget=0.0, big=False):
     return ncmp
 
 
-def mc_text(name, clear=True, size="mc", own=True):
-    defs = {"ReuseNeedsOwnResult": "TRUE" if own else "FALSE",
+def mc_text(name, clear=True, size="mc", own="both"):
+    defs = {"ReuseToken": '"%s"' % own,
             "CPos": "{1, 2}", "CVal": "{1, 2}", "Models": "{1, 2, 3}", "Means": "{1, 2}", "Poss": "{1, 2, 3}",
             "Seeds": "{1, 2}", "ClearOnSetCondition": "TRUE" if clear else "FALSE"}
     if size == "gen":
@@ -277,7 +280,7 @@ def random_executions(gs, variant, dim, rng, n_exec, n_ops):
                 k = rng.choice(["Call", "Call", "Call", "SetPos", "SetCondition", "ChangeModel", "ChangeMean", "KrigeCall", "DeleteFields"])
                 if k == "Call":
                     p = rng.choice([KEEP, 1, 2, 3]) if have_pos else rng.choice([1, 2, 3])
-                    op = {"name": "Call", "p": p, "s": rng.choice([KEEP, 1, 2])}
+                    op = {"name": "Call", "p": p, "s": rng.choice([KEEP, 1, 2]), "st": rng.random() < 0.75, "kst": rng.random() < 0.75}
                     have_pos = True
                 elif k in ("SetPos", "KrigeCall"):
                     op = {"name": k, "p": rng.choice([1, 2, 3])}
@@ -375,7 +378,7 @@ def run(pid, tier, seed, replay=None):
     with tlc.Scratch() as sc:
         os.makedirs(sc.path("sim"), exist_ok=True)
         jobs = []
-        for nm, clear, own in (("MC_cc", True, True), ("NEG_cc", False, True), ("NEG2_cc", True, False)):
+        for nm, clear, own in (("MC_cc", True, "both"), ("NEG_cc", False, "both"), ("NEG2_cc", True, "none"), ("NEG3_cc", True, "kvar")):
             mod, cfg = mc_text(nm, clear, "mc" if thorough else "mcquick", own=own)
             sc.write(nm + ".tla", mod)
             jobs.append((nm, sc, nm, cfg + "INIT Init\nNEXT Next\nVIEW View\nINVARIANT Coherent\nINVARIANT MatrixCurrent\n",
@@ -391,10 +394,10 @@ def run(pid, tier, seed, replay=None):
         res = tlc.run_many(jobs, parallel=4)
         for nm, r in res.items():
             tlc.must_pass(r, nm)
-        if res["NEG_cc"].error is None or res["NEG2_cc"].error is None:
+        if res["NEG_cc"].error is None or res["NEG2_cc"].error is None or res["NEG3_cc"].error is None:
             raise tlc.MachineryError("vacuity: CondCache does not detect stale reuse when a repaired defect is switched back on")
-        rep.extra["non_vacuity"] = ("with ClearOnSetCondition = FALSE TLC reports %s %s; with ReuseNeedsOwnResult = FALSE TLC reports %s %s"
-                                    % (res["NEG_cc"].error + res["NEG2_cc"].error))
+        rep.extra["non_vacuity"] = ("with ClearOnSetCondition = FALSE TLC reports %s %s; with ReuseToken = none: %s %s; with ReuseToken = kvar: %s %s"
+                                    % (res["NEG_cc"].error + res["NEG2_cc"].error + res["NEG3_cc"].error))
         for nm in ("MC_cc", "G_cc", "S_cc"):
             rep.add_tlc("CondCache." + nm, res[nm])
         if res["MC_cc"].error:
